@@ -1538,6 +1538,11 @@ namespace cds { namespace intrusive {
                 pos.pSucc[nLevel] = pCur.ptr();
             }
 
+            if ( pCur.ptr() == nullptr && pPred != m_Head.head()) {
+                // the last node has been removed concurrently: pPred is the last one now
+                goto retry;
+            }
+
             return ( pos.pCur = pCur.ptr()) != nullptr;
         }
 
